@@ -593,3 +593,16 @@ Proof.
   - apply (G OCall). intros a b c a' b' c' E. now inversion E.
   - apply (G OLoadFunc). intros a b c a' b' c' E. now inversion E.
 Qed.
+
+(* whatever serial operation is decoded (a document this library did not write, any payload): the decoded
+   operation's derived facts are the typing model's answers for it -- no guard is needed, [op_deserialize] never
+   yields a block over a non-sum nor an ExtOp *)
+Lemma deser_bridge_ok H SH (h_dec : SH -> H) (s : sop SH) : bridge_ok (op_deserialize H SH h_dec s) = true.
+Proof.
+  destruct s; try reflexivity; cbn [op_deserialize];
+    match goal with |- context [call_attrs ?p ?i ?a] => destruct (call_attrs p i a) end; reflexivity.
+Qed.
+Theorem decoded_facts_are_reports H SH (h_dec : SH -> H) h_type (s : sop SH) :
+  op_facts H h_type (op_deserialize H SH h_dec s) =
+  enc_reports (c06_reports H h_type (to_c06 (op_deserialize H SH h_dec s))).
+Proof. apply facts_are_reports, deser_bridge_ok. Qed.
